@@ -100,11 +100,19 @@ func genC08(t *rapid.T) c08Case {
 		if rapid.Bool().Draw(t, "steady") {
 			// a steady history: every remembered RTT (latest, averages, minimum) is the same value
 			r := rapid.OneOf(rapid.Int64Range(100, 100_000), rapid.Int64Range(1_000_000, 50_000_000)).Draw(t, "steadyRTT")
+			// ... optionally idle (app-limited: the estimate stands still while the history goes on), and optionally
+			// after one faster sample at the very start (a baseline below the steady level that only a probe replaces)
+			idle := rapid.IntRange(0, 2).Draw(t, "steadyIdle") == 0
 			for i := range c.Prefix {
 				c.Prefix[i].RTT, c.Prefix[i].Drop = r, false
-				if c.Prefix[i].Rel == "" || c.Prefix[i].Rel == "third" {
+				if idle {
+					c.Prefix[i].Rel, c.Prefix[i].Inf = "third", 0
+				} else if c.Prefix[i].Rel == "" || c.Prefix[i].Rel == "third" {
 					c.Prefix[i].Rel = "eq"
 				}
+			}
+			if rapid.Bool().Draw(t, "steadyDip") {
+				c.Prefix[0].RTT = maxI64(1, r*int64(rapid.SampledFrom([]int{10, 33, 50, 90}).Draw(t, "dipPct"))/100)
 			}
 		}
 	}
